@@ -413,7 +413,12 @@ func Attack(args []string) {
 				}
 			}
 			for l := (*seed * 3) % (*stride * 3); l < len(content); l += *stride * 3 {
-				e.attackDir(fmt.Sprintf("truncate %s to %d", rel, l), map[string][]byte{rel: content[:l]}, "strict")
+				// (a manifest cut right before its final newline still decodes to the same manifest: no class hint there)
+				hint := "strict"
+				if rel == "manifest.json" {
+					hint = ""
+				}
+				e.attackDir(fmt.Sprintf("truncate %s to %d", rel, l), map[string][]byte{rel: content[:l]}, hint)
 			}
 			e.attackDir("append garbage to "+rel, map[string][]byte{rel: append(append([]byte{}, content...), []byte("\n{\"x\":1}\n")...)}, "strict")
 			// trailing bytes of every lexical class a decoder might stop at: one byte alone, and the byte followed by more
